@@ -1,6 +1,17 @@
 (* C10 — shape of the generated cases and the two executable verdicts. No proofs. *)
+From Coq Require Import String Ascii.
 From VLib Require Import CaseLib.
 From C10 Require Import Model Spec.
+
+(* bytes are written as hex strings in the case files (numeral lists parse slowly) *)
+Definition hexval (c : ascii) : N :=
+  let n := N_of_ascii c in
+  if N.leb 97 n then (n - 87)%N else if N.leb 65 n then (n - 55)%N else (n - 48)%N.
+Fixpoint hx (s : string) : list N :=
+  match s with
+  | String a (String b r) => (16 * hexval a + hexval b)%N :: hx r
+  | _ => []
+  end.
 
 Definition bytes_eqb : list N -> list N -> bool := list_eqb N.eqb.
 
@@ -22,7 +33,7 @@ Record impl := {
 
 Inductive case :=
 (* one request: buffer size, request time / drifts (ns), decompressed body, oracle table *)
-| CBulk (B : nat) (now drift fdrift : Z) (body : list N) (tbl : list (list N * docinfo)) (r : impl).
+| CBulk (eager : bool) (B : nat) (now drift fdrift : Z) (body : list N) (tbl : list (list N * docinfo)) (r : impl).
 
 Definition stored_eqb (a b : list N * (Z * nat)) : bool :=
   bytes_eqb (fst a) (fst b) && Z.eqb (fst (snd a)) (fst (snd b)) && Nat.eqb (snd (snd a)) (snd (snd b)).
@@ -33,8 +44,8 @@ Definition info_of (tbl : list (list N * docinfo)) (d : list N) : docinfo :=
 (* model output = implementation output *)
 Definition case_agrees (c : case) : bool :=
   match c with
-  | CBulk B now drift fdrift body tbl r =>
-      match run_body B (fun d => option_map d_cls (lookup tbl d)) body with
+  | CBulk eager B now drift fdrift body tbl r =>
+      match run_body eager B (fun d => option_map d_cls (lookup tbl d)) body with
       | Accepted ds =>
           i_ok r && Nat.eqb (i_created r) (length ds)
           && Nat.eqb (i_calls r) (match ds with [] => 0 | _ => 1 end)
@@ -51,8 +62,8 @@ Definition case_agrees (c : case) : bool :=
    time parsing: the expected instant is the one the generator rendered into the document) *)
 Definition case_spec_ok (c : case) : bool :=
   match c with
-  | CBulk B now drift fdrift body tbl r =>
-      match spec_outcome (fun d => d_cls (info_of tbl d)) B body with
+  | CBulk eager B now drift fdrift body tbl r =>
+      match spec_outcome (fun d => d_cls (info_of tbl d)) eager B body with
       | Accepted ds =>
           i_ok r && Nat.eqb (i_created r) (length ds)
           && Nat.leb (i_calls r) 1
